@@ -759,6 +759,37 @@ pub fn fam_serial(tier: Tier) -> Vec<Config> {
             }
         }
     }
+    // a custom classifier that decides by the scenario's shape (three own steps: serial), not
+    // by tags, over features that carry no tag at all
+    for nconc in 1..=2usize {
+        for conc in [Some(2usize), Some(3), None] {
+            for layout in ["same", "serial-first", "serial-last"] {
+                for lazy in [false, true] {
+                    let mut cfg = base(String::new());
+                    let ser = vec![scen(&[], &[M, M, M])];
+                    let con: Vec<ScenSpec> = (0..nconc).map(|_| scen(&[], &[M])).collect();
+                    match layout {
+                        "same" => {
+                            let mut all = con.clone();
+                            all.extend(ser);
+                            cfg.feats = vec![feat(all)];
+                        }
+                        "serial-first" => cfg.feats = vec![feat(ser), feat(con)],
+                        _ => cfg.feats = vec![feat(con), feat(ser)],
+                    }
+                    cfg.items = (0..cfg.feats.len()).map(Item::Feat).collect();
+                    cfg.custom_which = true;
+                    cfg.conc_builder = Some(conc);
+                    cfg.lazy = lazy;
+                    cfg.plan.gates = GateMode::Steps;
+                    cfg.bound = Some(if tier == Tier::Quick { 2 } else { 3 });
+                    cfg.max_execs = if tier == Tier::Quick { 3_000 } else { 200_000 };
+                    cfg.name = format!("serial/custom-shape|nc{nconc}|c{conc:?}|{layout}|lazy{}", u8::from(lazy));
+                    out.push(cfg);
+                }
+            }
+        }
+    }
     // rows of one Scenario Outline classified differently: the first row (untagged Examples
     // block) is concurrent, the second (block tagged @serial) is serial
     for conc in [Some(2usize), Some(3), None] {
@@ -930,6 +961,22 @@ pub fn fam_retry(tier: Tier) -> Vec<Config> {
         let _ = selected;
         cfg.name = format!("retry/filter-levels|{expr}|f{ftag}|r{rtag}|s{stag}");
         out.push(cfg);
+    }
+    // an explicit budget of 0 on the builder (a configured value, not "unset"), with every
+    // kind of limit, run directly and through a clone of the runner (even-length names)
+    for conc in [None, Some(None), Some(Some(1usize)), Some(Some(2))] {
+        for pad in ["", "_"] {
+            let mut cfg = base(format!("retry/zero-budget|c{conc:?}{pad}"));
+            cfg.feats = vec![feat(vec![scen(&[], &[M]), scen(&[], &[M])])];
+            cfg.items = vec![Item::Feat(0)];
+            cfg.retries_builder = Some(0);
+            cfg.conc_builder = conc;
+            cfg.plan.gates = GateMode::Steps;
+            let key = cfg.scen_infos()[0].calls[0].key.clone();
+            cfg.plan.outcomes.insert(key, vec![Outcome::PanicString, Outcome::Pass]);
+            cfg.max_execs = 200;
+            out.push(cfg);
+        }
     }
     out
 }
